@@ -297,7 +297,7 @@ def strategies():
     raw = st.text(alphabet=ALPHA, min_size=1, max_size=10)
     cluster = st.one_of(st.none(), raw.filter(lambda s: "::" not in s and not AMBIG.match(s)),
                         st.sampled_from(["c", "com.example.x", "a:b", "x#y", "c1@prod", "a:"]))
-    version = st.one_of(st.none(), raw, st.sampled_from(["1", "a:b", "a::b", "1::2:3", "v#2", "2020-01-01T10:00:00", "#", ":", "v1.link", ".link", "r2.link.tmp", ".versions", "a%2Fb"]))
+    version = st.one_of(st.none(), raw, st.sampled_from(["1", "a:b", "a::b", "1::2:3", "v#2", "2020-01-01T10:00:00", "#", ":", "v1.link", ".link", "r2.link.tmp", ".versions", "a%2Fb", "v[1]", "a*b?", "[ab]"]))
     a = st.builds(lambda c, m_, f, v: {"part": "A", "cluster": c, "module": m_, "function": f, "version": v}, cluster, dotted, dotted, version)
     b = st.builds(lambda c, v, be: {"part": "B", "cluster": c, "version": v, "backend": be}, cluster, version, st.sampled_from(["fs", "fs", "mem"]))
     c = st.builds(lambda cl, ev, dl: {"part": "C", "cluster": cl, "evolution": ev, "delivery": dl},
